@@ -6,6 +6,9 @@
                            | "unsupported" (driver raises UnsupportedTargetError / unknown technology)
                            | "invalid" (sel_req / atr_req of a wrong length)
                            | "ioerror" (the driver raises IOError: host link failure)
+                           | "badtype" (the argument is not a RemoteTarget at all: a LocalTarget, a brty string,
+                           None).  sense() validates ALL arguments before it touches anything: ValueError, no
+                           driver call (neither mute nor a sense method), field and captured target unchanged
      Listen(kind)          listen(): "found" / "none" (a reader discovers us or not), "unsupported" (the driver
                            raises UnsupportedTargetError, e.g. a Type B local target), "invalid" (unknown brty:
                            ValueError), "ioerror" (the driver raises IOError)
@@ -24,7 +27,7 @@ CONSTANTS Intervals,   \* `interval` option values, in microseconds
           MaxIter,     \* iterations 1..MaxIter
           MaxOps       \* calls per session
 
-Kinds == {"found", "absent", "unsupported", "invalid", "commerr", "ioerror"}
+Kinds == {"found", "absent", "unsupported", "invalid", "commerr", "ioerror", "badtype"}
 ListenKinds == {"found", "none", "unsupported", "invalid", "ioerror"}
 Lists == UNION {[1..n -> Kinds] : n \in 0..MaxLen}
 
@@ -34,8 +37,10 @@ VARIABLES target,      \* clf.target: "none" | "remote" | "local"
           nops
 vars == <<target, field, last, nops>>
 
+\* had / hadf: captured target and field before the call; drv: the call reached the driver
 NoOp == [op |-> "", kinds |-> <<>>, iters |-> 0, res |-> "", idx |-> 0, sent |-> "", had |-> "none",
-         interval |-> 0, cycle |-> 0, pauses |-> <<>>]
+         interval |-> 0, cycle |-> 0, pauses |-> <<>>, hadf |-> FALSE, drv |-> FALSE]
+BadArgs(ks) == \E i \in DOMAIN ks : ks[i] = "badtype"
 Max0(x, y) == IF x > y THEN x - y ELSE 0           \* max(0, x - y) on naturals
 
 Init == target = "none" /\ field = FALSE /\ last = NoOp /\ nops = 0
@@ -48,7 +53,8 @@ FirstStop(ks) == CHOOSE j \in Stops(ks) : \A i \in Stops(ks) : j <= i
 SensedBefore(ks, j) == \E i \in 1..(j - 1) : ks[i] \in {"absent", "commerr"}
 
 SenseRes(ks) ==
-    IF Stops(ks) = {} THEN [res |-> "none", idx |-> 0]
+    IF BadArgs(ks) THEN [res |-> "ValueError", idx |-> 0]      \* rejected up front, whatever else is in the list
+    ELSE IF Stops(ks) = {} THEN [res |-> "none", idx |-> 0]
     ELSE LET j == FirstStop(ks) IN
          CASE ks[j] = "found" -> [res |-> "found", idx |-> j]
            [] ks[j] = "invalid" -> [res |-> "ValueError", idx |-> 0]
@@ -63,9 +69,12 @@ Sense(ks, it, iv, cy) ==
     /\ LET r == SenseRes(ks) IN
        /\ last' = [op |-> "sense", kinds |-> ks, iters |-> it, res |-> r.res, idx |-> r.idx, sent |-> "", had |-> target,
                    interval |-> iv, cycle |-> cy,
-                   pauses |-> IF r.res = "none" THEN [i \in 1..(it - 1) |-> Max0(iv, cy)] ELSE <<>>]
-       /\ target' = IF r.res = "found" THEN "remote" ELSE "none"      \* forgotten first, set only when found
-       /\ field' = CASE r.res = "found" -> TRUE
+                   pauses |-> IF r.res = "none" THEN [i \in 1..(it - 1) |-> Max0(iv, cy)] ELSE <<>>,
+                   hadf |-> field, drv |-> ~BadArgs(ks)]
+       /\ target' = IF BadArgs(ks) THEN target                       \* a rejected call has no effect at all
+                    ELSE IF r.res = "found" THEN "remote" ELSE "none" \* forgotten first, set only when found
+       /\ field' = CASE BadArgs(ks) -> field
+                     [] r.res = "found" -> TRUE
                      [] r.res = "none" -> FALSE                       \* muted after every round
                      [] OTHER -> SensedBefore(ks, FirstStop(ks))      \* an exception leaves it as it was
     /\ nops' = nops + 1
@@ -77,7 +86,7 @@ ListenRes(k) == CASE k = "found" -> "found" [] k = "none" -> "none" [] k = "unsu
 Listen(k) ==
     /\ nops < MaxOps
     /\ last' = [op |-> "listen", kinds |-> <<k>>, iters |-> 0, res |-> ListenRes(k), idx |-> 0,
-                sent |-> "", had |-> target, interval |-> 0, cycle |-> 0, pauses |-> <<>>]
+                sent |-> "", had |-> target, interval |-> 0, cycle |-> 0, pauses |-> <<>>, hadf |-> field, drv |-> TRUE]
     /\ target' = IF k = "found" THEN "local" ELSE "none"
     /\ field' = FALSE
     /\ nops' = nops + 1
@@ -86,7 +95,8 @@ SentFor(t) == CASE t = "remote" -> "cmd" [] t = "local" -> "rsp" [] OTHER -> "no
 Exchange ==
     /\ nops < MaxOps
     /\ last' = [op |-> "exchange", kinds |-> <<>>, iters |-> 0, res |-> IF target = "none" THEN "none" ELSE "data",
-                idx |-> 0, sent |-> SentFor(target), had |-> target, interval |-> 0, cycle |-> 0, pauses |-> <<>>]
+                idx |-> 0, sent |-> SentFor(target), had |-> target, interval |-> 0, cycle |-> 0, pauses |-> <<>>,
+                hadf |-> field, drv |-> target # "none"]
     /\ UNCHANGED <<target, field>>
     /\ nops' = nops + 1
 
@@ -103,18 +113,19 @@ FirstFoundP(x) ==
     IsSense(x) =>
       /\ x.res = "found" => /\ x.idx \in DOMAIN x.kinds /\ x.kinds[x.idx] = "found"
                             /\ \A i \in 1..(x.idx - 1) : x.kinds[i] # "found"
+                            /\ ~BadArgs(x.kinds)              \* never a result from a call with a bad argument
       /\ x.res = "none" => \A i \in DOMAIN x.kinds : x.kinds[i] # "found"
 \* unsupported targets never make sense() raise when several targets are given; they are skipped
 UnsupportedIgnoredP(x) ==
     IsSense(x) =>
       /\ (x.res = "UnsupportedTargetError") = (Len(x.kinds) = 1 /\ x.kinds[1] = "unsupported")
       /\ (Len(x.kinds) > 1 /\ (\E i \in DOMAIN x.kinds : x.kinds[i] = "found")
-            /\ (\A i \in DOMAIN x.kinds : x.kinds[i] \notin {"invalid", "ioerror"})) => x.res = "found"
+            /\ (\A i \in DOMAIN x.kinds : x.kinds[i] \notin {"invalid", "ioerror", "badtype"})) => x.res = "found"
 \* exceptions only as documented
 RaisesP(x) ==
     IsSense(x) =>
       /\ x.res \in {"found", "none", "UnsupportedTargetError", "ValueError", "IOError"}
-      /\ x.res = "ValueError" => \E i \in DOMAIN x.kinds : x.kinds[i] = "invalid"
+      /\ x.res = "ValueError" => \E i \in DOMAIN x.kinds : x.kinds[i] \in {"invalid", "badtype"}
       /\ x.res = "IOError" => \E i \in DOMAIN x.kinds : x.kinds[i] = "ioerror"
 \* every pause between two rounds is >= 0 (time.sleep() rejects a negative value) and rounds are spaced by
 \* max(interval, time of a round); `iterations` rounds are made when nothing is found
@@ -122,12 +133,17 @@ PausesP(x) ==
     IsSense(x) =>
       /\ \A i \in DOMAIN x.pauses : x.pauses[i] >= 0 /\ x.pauses[i] + x.cycle = (IF x.interval > x.cycle THEN x.interval ELSE x.cycle)
       /\ Len(x.pauses) = (IF x.res = "none" /\ x.iters >= 1 THEN x.iters - 1 ELSE 0)
+\* arguments are validated before anything else: a non-RemoteTarget anywhere in the list => ValueError, no driver
+\* call at all, field and captured target as before; every accepted call starts by muting the field
+ArgCheckP(x, t, f) ==
+    IsSense(x) => IF BadArgs(x.kinds) THEN x.res = "ValueError" /\ ~x.drv /\ t = x.had /\ f = x.hadf
+                  ELSE x.drv
 \* nothing found: the field is off when sense() returns None
 MuteWhenNoneP(x, f) == (IsSense(x) /\ x.res = "none") => ~f
 \* clf.target is exactly what the LAST sense / listen found, never a target of an earlier call - in particular
 \* it is None after a sense / listen that found nothing, whether it returned None or ended in an exception
 TargetFreshP(x, t) ==
-    /\ IsSense(x) => t = IF x.res = "found" THEN "remote" ELSE "none"
+    /\ IsSense(x) => t = IF BadArgs(x.kinds) THEN x.had ELSE IF x.res = "found" THEN "remote" ELSE "none"
     /\ x.op = "listen" => t = IF x.res = "found" THEN "local" ELSE "none"
 \* exchange() sends nothing without a target, a command to a remote and a response as a local target
 ExchangeP(x, t) ==
@@ -138,6 +154,7 @@ FirstFound == FirstFoundP(last)
 UnsupportedIgnored == UnsupportedIgnoredP(last)
 Raises == RaisesP(last)
 MuteWhenNone == MuteWhenNoneP(last, field)
+ArgCheck == ArgCheckP(last, target, field)
 Pauses == PausesP(last)
 TargetFresh == TargetFreshP(last, target)
 ExchangeOk == ExchangeP(last, target)
@@ -151,6 +168,8 @@ W_ValueError == ~(IsSense(last) /\ last.res = "ValueError" /\ Len(last.kinds) > 
 W_NoneMuted == ~(IsSense(last) /\ last.res = "none" /\ last.had = "remote")
 W_Paused == ~(IsSense(last) /\ Len(last.pauses) = 2 /\ last.pauses[1] > 0)
 W_NoPauseLongCycle == ~(IsSense(last) /\ Len(last.pauses) = 2 /\ last.pauses[1] = 0 /\ last.interval > 0)
+W_BadArgAfterValid == ~(IsSense(last) /\ Len(last.kinds) = 2 /\ last.kinds[1] = "found" /\ last.kinds[2] = "badtype"
+                        /\ last.had = "remote")
 W_ExchangeNothing == ~(last.op = "exchange" /\ last.had = "none")
 W_ListenRaisedAfterCapture == ~(last.op = "listen" /\ last.res = "UnsupportedTargetError" /\ last.had = "remote")
 W_SenseRaisedAfterCapture == ~(IsSense(last) /\ last.res \in {"ValueError", "IOError", "UnsupportedTargetError"} /\ last.had = "local")
